@@ -29,6 +29,8 @@ pub mod w3mon {
     pub const HALT: u32 = 1 << 5;
     /// classify FIFO divergences with the key-collision twin (C05)
     pub const TIE_CLASSIFY: u32 = 1 << 6;
+    /// after every step the live book of each asset is serialised and reloaded: it must load and equal the live book
+    pub const BOOKSNAP: u32 = 1 << 7;
 }
 
 #[derive(Clone, Debug, Serialize, Deserialize, PartialEq)]
